@@ -145,16 +145,16 @@ func (d *descent) classify(fn *ssa.Function, v ssa.Value, env map[*ssa.Parameter
 			break
 		}
 		switch sc.String() {
-		case "(*github.com/beevik/etree.Element).FindElement", "(*github.com/beevik/etree.Element).SelectElement":
+		case "(*github.com/beevik/etree.Element).FindElement", "(*github.com/beevik/etree.Element).SelectElement", "(*github.com/beevik/etree.Element).FindElementPath":
 			base := d.classify(fn, x.Call.Args[0], env, depth+1, seen)
 			if base != descSame && base != descStrict {
 				return base
 			}
-			if k, ok := x.Call.Args[1].(*ssa.Const); ok && k.Value != nil && k.Value.Kind() == constant.String {
-				if sc.Name() == "SelectElement" || descendingPath(constant.StringVal(k.Value)) {
+			if path, ok := etreePathConst(x.Call.Args[1]); ok {
+				if sc.Name() == "SelectElement" || descendingPath(path) {
 					return descStrict
 				}
-				d.note(fmt.Sprintf("path %q does not only descend", constant.StringVal(k.Value)), x)
+				d.note(fmt.Sprintf("path %q does not only descend", path), x)
 				return descOther
 			}
 			d.note("element path is not a constant", x)
